@@ -853,9 +853,11 @@ def neg_compile(groups, stmts):
 # ----------------------------------------------------------------------------- plugin
 class C16:
     id = 'C16'
-    props_files = ['SmoothProps/C16.lean']
-    props_module = 'SmoothProps.C16'
-    lean_targets = ['SmoothProps.C16']
+    # + the source tie of include/smooth/bundle.hpp (part<Idx>() mutable / const, PartStart, PartDof, constructor from parts),
+    # regenerated from the C++ on every check by tools/gen_bundle.py; aggregator SmoothProps/C16All.lean
+    props_files = ['SmoothProps/C16.lean', 'SmoothProps/SrcTieBundlePub.lean']
+    props_module = 'SmoothProps.C16All'
+    lean_targets = ['SmoothProps.C16All']
     translators = [gen_view_layout, gen_bundle_layout]
     rule = ('harness/mem.cpp: 25 catalogued group types (SO2 SO3 SE2 SE3 C1 Galilei SE_K_3<1..4>, 15 Bundles incl. nested and with Rn / C1 / nested parts in first and middle position) x '
             '{double,float}; random scripts of <= 50 ops (I C A K M ML P X R RL) on 2-4 overlapping Map<G>/Map<const G> views at word offsets '
